@@ -177,6 +177,12 @@ const HAND: &[&str] = &[
     "<a xmlns:p=\"u\" b=\"1\" xmlns:p=\"v\"/>",
     "<a xmlns=\"u\" b=\"1\" xmlns=\"v\"/>",
     "<a p:x=\"1\" y=\"2\" p:x=\"3\" xmlns:p=\"u\"/>",
+    "<?xml version='1.0' standalone='yes' encoding='UTF-8'?><a/>",
+    "<?xml encoding='UTF-8' version='1.0'?><a/>",
+    "<?xml standalone='yes' version='1.0'?><a/>",
+    "<?xml version='1.0' encoding='UTF-8' encoding='UTF-8'?><a/>",
+    "<?xml version='1.0' standalone='yes' standalone='yes'?><a/>",
+    "<?xml version='1.0'encoding='UTF-8'?><a/>",
     "<a>x]]]>y</a>",
     "<a>if (a[b[c[0]]]>d) {}</a>",
     "<!DOCTYPE a [<!ENTITY l \"&c1;\"><!ENTITY c1 \"&c2;\"><!ENTITY c2 \"&c1;\">]><a>&l;</a>",
